@@ -443,6 +443,29 @@ impl CallStack {
         frame.current_line_offset += delta;
     }
 
+    /// Returns the number of lines by which text nested in the currently executing command
+    /// (an `eval` string, the body of a command substitution) is offset from the start of
+    /// the text the top frame is executing.
+    pub(crate) fn nested_text_line_delta(&self) -> usize {
+        self.frames
+            .front()
+            .and_then(|frame| frame.current.as_ref())
+            .map_or(0, |pos| pos.line.saturating_sub(1))
+    }
+
+    /// Decrements the current line offset in the top stack frame by the given delta.
+    ///
+    /// # Arguments
+    ///
+    /// * `delta` - The number of lines to decrement the current line offset by.
+    pub(crate) fn decrement_current_line_offset(&mut self, delta: usize) {
+        let Some(frame) = self.frames.front_mut() else {
+            return;
+        };
+
+        frame.current_line_offset = frame.current_line_offset.saturating_sub(delta);
+    }
+
     /// Pushes a new script call frame onto the stack.
     ///
     /// # Arguments
